@@ -53,5 +53,7 @@ def run(ck):
     if corr and not [v for v in ck.violations if v[1].get("class") != K1]:
         last["broken"] = "correspondence dec/ver model vs implementation on tampered files"
         ck.violation("correspondence model/implementation no longer checks on %d tampered files, no property violation found" % corr, last, found_input=False)
+    if ck.tier == "thorough":
+        production_scale(ck)     # 40 MiB and > 4 GiB with the production constants (props/filegen.py)
     return finish_proof(ck, rule="%d files produced by the implementation (all modes/hashes, T, lengths around chunk boundaries) x mutations: single-byte changes in every region (magic, mode bytes incl. every in-range and several out-of-range values, tag, tag padding, IV0, other IVs, body first/last block; thorough: every byte x 3 values), truncation at every header/block boundary (thorough: every length), extension, insert/delete, block and chunk swaps, zeroed tag, overwritten regions; each through decrypt and verify with the right key. distinct = distinct (mutation class, offset, length, cmode, hmode, T)" % len(files),
                         assumptions=["HMAC unforgeability turns the Forgery disjunct of the theorem into the plain-language claim (computational assumption, not provable)"])
